@@ -286,6 +286,13 @@ def spy_develop(records):
             rec['trcl'] = [[float(x) for x in t] for t in cell.trcl]
         except Exception as exc:       # pylint: disable=broad-except
             rec['snapshot_error'] = f'{type(exc).__name__}: {exc}'
+        # the guard "if cell.lattice is None: return": a cell that is not a
+        # lattice is left alone (ConstructVolumeT4 never asks, so ask here)
+        plain = [k for k, c in self.dic_cell_mcnp.items() if c.lattice is None]
+        if plain:
+            snapshot = dict(self.dic_cell_mcnp)
+            orig(self, plain[0])
+            rec['guard_ok'] = snapshot == self.dic_cell_mcnp
         before = set(self.dic_cell_mcnp)
         try:
             orig(self, key)
@@ -377,6 +384,9 @@ def develop_case(rec):
                 clist(cfloat(x) for x in el['filltr'])))
         if not rec.get('deleted'):
             problems.append('the lattice cell was not removed')
+        if rec.get('guard_ok') is False:
+            problems.append('develop_lattice changed something for a cell '
+                            'that is not a lattice')
         expected = f'(Ok {clist(outs)})'
     case = cpair(clist(cz(i) for i in rec['ids']), dic, cell, expected)
     return case, problems
@@ -655,9 +665,27 @@ def run(res, tier, seed, proofs_ok):
                       {'input': {'deck': WITNESS_ENTRY_TR, 'args': []}},
                       cls='array_entry_transformation', found_input=True)
 
-    direct_ties(res, rng, quick)
+    import c06_cov
+    global COV
+    COV = c06_cov.LineCov(c06_cov.anchored_functions())
+    with COV:
+        direct_ties(res, rng, quick)
     t1 = time.time()
     deck_stream(res, rng, quick)
+    total, missing = COV.missing(c06_cov.UNREACHABLE)
+    res.obligation('coverage: the tied calls and the traced part of the deck '
+                   'stream execute every reachable line of the anchored '
+                   f'functions ({total} lines of {len(COV.codes)} code '
+                   'objects)', not missing, f'never executed: {missing[:6]}')
+    res.extra['anchored_lines'] = total
+    if missing:
+        res.violation('harness-error',
+                      'generated inputs no longer reach these lines of the '
+                      'anchored code (strengthen the generators): '
+                      f'{missing[:8]}',
+                      {'theorem_or_correspondence': 'coverage',
+                       'input': {'lines': [list(m) for m in missing[:20]]}},
+                      found_input=False)
     res.extra['phase_seconds'] = {'direct_ties': round(t1 - t0, 1),
                                   'deck_stream': round(time.time() - t1, 1)}
 
@@ -1124,11 +1152,19 @@ def classify(deck, meta, failure):
     return None
 
 
-def run_deck(deck, args):
+COV = None      # line-coverage tracer (c06_cov.LineCov) of the current run
+
+
+def run_deck(deck, args, trace=False):
     '''(conv, records of develop_lattice calls)'''
     records = []
     with spy_develop(records):
-        conv = impl.convert(deckmod.render(deck), args, keep_stdout=False)
+        if trace and COV is not None:
+            with COV:
+                conv = impl.convert(deckmod.render(deck), args,
+                                    keep_stdout=False)
+        else:
+            conv = impl.convert(deckmod.render(deck), args, keep_stdout=False)
     return conv, records
 
 
@@ -1157,7 +1193,10 @@ def deck_stream(res, rng, quick):
             fault = c06_gen.break_deck(rng, deck, meta)
         text = deckmod.render(deck)
         args = deckmod.lattice_args(deck)
-        conv, records = run_deck(deck, args)
+        # the corpus, 40 random decks and every broken deck run under the
+        # line-coverage tracer (tracing every conversion would double the time)
+        conv, records = run_deck(deck, args,
+                                 trace=k < len(corpus) + 40 or broken)
         payload = {'deck': text, 'args': args, 'abstract': deck, 'meta': meta,
                    'fault': fault}
         res.seen(text, nontrivial=meta['n_elements'] > 1 or broken)
